@@ -122,7 +122,7 @@ func ruleElemLoops(c *Ctx) {
 			for _, ef := range sp.Effects {
 				switch el.consume {
 				case "callback":
-					if ef.Kind == "call" && strings.HasPrefix(ef.Target, "var:") && len(ef.Args) >= 1 && strings.HasPrefix(ef.Args[len(ef.Args)-1].String(), "L:") {
+					if ef.Kind == "call" && !ef.InCond && strings.HasPrefix(ef.Target, "var:") && len(ef.Args) >= 1 && strings.HasPrefix(ef.Args[len(ef.Args)-1].String(), "L:") {
 						nConsume++
 					}
 				case "append":
